@@ -54,11 +54,13 @@ func BPlusTreeStore.GetRange
   ensures isnil(result_1)
   ensures C14/range-within-bounds: forall k int :: 0 <= k && k < len(result_0) ==> lexle(cat(b1(prefixOf(table)), bytes(start)), stored(result_0[k].Key)) && lexle(stored(result_0[k].Key), cat(b1(prefixOf(table)), bytes(end)))
   call 6 invariant C14/bound-keys-are-prefix-plus-bounds: bytes(startKey) == cat(b1(prefixOf(table)), bytes(start)) && bytes(endKey) == cat(b1(prefixOf(table)), bytes(end))
+  call 6 invariant fresh(local(result))
   call 6 invariant C14/range-within-bounds: forall k int :: 0 <= k && k < len(local(result)) ==> lexle(bytes(startKey), stored(local(result)[k].Key)) && lexle(stored(local(result)[k].Key), bytes(endKey))
 func BPlusTreeStore.GetRange.$1
   props C14
   requires istype(i, KVItem) && len(dyn(i, KVItem).Key) >= 1
-  modifies nothing
+  // (an append that fits the capacity writes the array behind the captured result)
+  modifies local(result)[*]
   // the scan (in key order, from prefix+start) only stops at a key ABOVE prefix+end, and takes every key before that
   ensures C14/stops-only-above-the-end: !result ==> !lexle(bytes(dyn(i, KVItem).Key), bytes(endKey))
   ensures C14/takes-every-key-up-to-the-end: result ==> len(local(result)) == old(len(local(result))) + 1
